@@ -155,12 +155,12 @@ class Gen:
         if k == 7:
             return ("const", "float", r.choice(["1.5", ".5", "2.", "1e3", "1.5f", "2.5L", "0x1.8p3", "3e-2F", "0x1p-3", "0xA.8p+2f", "0X.4P1L", "09.5", "1.E+2"]))
         if k == 8:
-            return ("const", "char", r.choice(["'a'", "'\\n'", "'\\''", "L'x'", "'\\x41'", "'\\0'", "u'z'"]))
+            return ("const", "char", r.choice(["'a'", "'\\n'", "'\\''", "L'x'", "'\\x41'", "'\\0'", "u'z'", "L'\u00e9'", "'\u20ac'"]))
         if r.random() < 0.15:
             return ("strcat", r.sample(['"s"', '"a b"', '""', '"x\\n"'], r.randint(2, 3)))
         if r.random() < 0.1:
             return ("offsetof", (("struct", "struct", "S"), [], []), r.choice([["f"], ["f", "g"], ["f", 2], ["arr", 1, "g"]]))
-        return ("const", "string", r.choice(['"s"', '"a b"', '"q\\"uote"', '"\\\\"', 'L"w"', '""', 'u8"u"']))
+        return ("const", "string", r.choice(['"s"', '"a b"', '"q\\"uote"', '"\\\\"', 'L"w"', '""', 'u8"u"', '"caf\u00e9 \u65e5\u672c"', 'u8"\U0001f600!"', 'L"\u00fc\u00df"', '"\t tab"']))
 
     def initlist(self, depth):
         r = self.rng
